@@ -112,3 +112,27 @@ def pset(obj, name, value):
 
 def pget(obj, name):
     return _descriptor(type(obj), name).__get__(obj, type(obj))
+
+
+_KNOWN = None
+_KNOWN_SEEN = set()
+
+
+def known_finding(fid):
+    """True iff the committed known_findings.json lists finding `fid` (a recorded, unrepaired defect).  The harness then
+    reports the hit on stderr (the runner turns it into a KNOWN-FINDING line) instead of failing, and keeps checking."""
+    global _KNOWN
+    if _KNOWN is None:
+        import json
+        path = os.path.join(os.path.dirname(os.path.dirname(os.path.abspath(__file__))), 'known_findings.json')
+        try:
+            with open(path) as f:
+                _KNOWN = {x['id'] for x in json.load(f).get('findings', [])}
+        except OSError:
+            _KNOWN = set()
+    if fid in _KNOWN:
+        if fid not in _KNOWN_SEEN:
+            _KNOWN_SEEN.add(fid)
+            print('KNOWN-FINDING-HIT ' + fid, file=sys.stderr, flush=True)
+        return True
+    return False
